@@ -271,7 +271,21 @@ fn read_cases(ctx: &mut Ctx) {
             ($T:ty, $sig:expr) => {
                 // The same structure either bare or (every third file) as the body of an optional structure.
                 match guard(|| { let mut r: &[u8] = &bytes; let x = if wrapped { <Option<$T>>::load(&mut r) } else { <$T>::load(&mut r).map(Some) }; (x, r.len()) }) {
-                    Ok((Ok(Some(x)), left)) => { ctx.checks += 1; if left != 0 { ctx.violation(&format!("foreign.{}.consumed", $sig), format!("{} bytes left after loading {}", left, base)); } Some(x) },
+                    Ok((Ok(Some(x)), left)) => {
+                        ctx.checks += 1;
+                        if left != 0 { ctx.violation(&format!("foreign.{}.consumed", $sig), format!("{} bytes left after loading {}", left, base)); }
+                        // The same file followed by more data, through a reader that hands out a few bytes at a time (as a pipe,
+                        // a socket or a decompressor would): the same value, and the reader left exactly behind the structure.
+                        let mut stream = bytes.clone();
+                        stream.extend_from_slice(&0x5E471E1u64.to_le_bytes());
+                        let again = guard(|| { let mut r = crate::drivers::c06::ShortReader { data: &stream, pos: 0, tick: bytes.len() + base.len() }; let y = if wrapped { <Option<$T>>::load(&mut r) } else { <$T>::load(&mut r).map(Some) }; (y.map(|y| y.map(|y| { let mut a: Vec<u8> = Vec::new(); let mut b: Vec<u8> = Vec::new(); let _ = y.serialize(&mut a); let _ = x.serialize(&mut b); a == b })).map_err(|e| e.to_string()), r.pos) });
+                        ctx.checks += 1;
+                        match again {
+                            Ok((Ok(Some(true)), pos)) if pos == bytes.len() => {},
+                            other => ctx.violation(&format!("foreign.{}.short_reads", $sig), format!("loading {} ({}) through a reader that returns short counts: {:?} (expected the same value and the reader at byte {})", base, content_summary(&content), other, bytes.len())),
+                        }
+                        Some(x)
+                    },
                     Ok((Ok(None), _)) => { ctx.violation(&format!("foreign.{}.option_none", $sig), format!("document-conformant optional structure {} ({}) was loaded as None", base, content_summary(&content))); None },
                     Ok((Err(e), _)) => { ctx.violation(&format!("foreign.{}.rejected", $sig), format!("document-conformant file {}{} ({}) was rejected: {}", base, if wrapped { " (an optional structure)" } else { "" }, content_summary(&content), e)); None },
                     Err(p) => { ctx.violation(&format!("foreign.{}.load!panic", $sig), format!("loading {} ({}) panicked: {}", base, content_summary(&content), p)); None },
@@ -347,6 +361,13 @@ fn read_cases(ctx: &mut Ctx) {
                 if t == "wm" {
                     if let Some(wm) = load!(WaveletMatrix, "wm") { check_wm(ctx, &wm, &v, &idx, &values, "foreign"); }
                 } else if let Some(core) = load!(WMCore, "wmcore") { check_core(ctx, &core, &v, &idx, &values, "foreign"); }
+            },
+            "bytes" | "string" => {
+                let hexs = content.get("hex").cloned().unwrap_or_default();
+                let want: Vec<u8> = (0..hexs.len() / 2).filter_map(|i| u8::from_str_radix(&hexs[2 * i..2 * i + 2], 16).ok()).collect();
+                if t == "bytes" {
+                    if let Some(v) = load!(Vec<u8>, "bytes") { ctx.expect_eq("foreign.bytes.content", || format!("content of {}", base), &Ok(v), &want); }
+                } else if let Some(v) = load!(String, "string") { ctx.expect_eq("foreign.string.content", || format!("content of {}", base), &Ok(v.into_bytes()), &want); }
             },
             _ => ctx.inconclusive(format!("unknown case type {} in {}", t, base)),
         }
